@@ -411,9 +411,9 @@ class MeshTri1(MeshSimplex, Mesh2D):
                     wedges = np.hstack((
                         wedges,
                         np.vstack((self.t + diff,
-                                   self.t + self.nvertices + diff))
+                                   self.t + self.p.shape[1] + diff))
                     ))
-                diff += self.nvertices
+                diff += self.p.shape[1]
             return MeshWedge1(points, wedges)
 
         raise NotImplementedError
